@@ -13,15 +13,17 @@
 
    Switches between the code as found and the repaired code (props/C29/fix_1.diff, fix_2.diff):
      c_special : _getformat accepts inf / nan, the parser reads inf / -inf (any of Inf, inf) with its sign;
-     c_eol     : a stretched line keeps its line terminator. *)
+     c_eol     : a stretched line keeps its line terminator;
+     c_msign   : the parser's "3e5" form (mixed_exp: digits, exponent, no decimal point) accepts a leading sign,
+                 so that "-2e-05" is one float and not the int -2 followed by the word "e-05" (fix_3.diff). *)
 From Coq Require Import ZArith List Bool String Ascii.
 From OMV Require Import Base.Val.
 Import ListNotations.
 Open Scope string_scope. Open Scope Z_scope.
 
-Record cfg := mkcfg { c_special : bool; c_eol : bool }.
-Definition cfg_fixed := mkcfg true true.
-Definition cfg_found := mkcfg false false.
+Record cfg := mkcfg { c_special : bool; c_eol : bool; c_msign : bool }.
+Definition cfg_fixed := mkcfg true true true.
+Definition cfg_found := mkcfg false false false.
 
 Definition nl : ascii := "010"%char.
 
@@ -450,15 +452,16 @@ Definition lex_float (s : string) : option (string * string) :=
             end
   end.
 
-Definition lex_mixed (s : string) : option (string * string) :=
-  match digits1 s with
+Definition lex_mixed (c : cfg) (s : string) : option (string * string) :=
+  let (sg0, s0) := if c_msign c then opt_sign s else ("", s) in
+  match digits1 s0 with
   | None => None
   | Some (d, r) => match exp_letter r with
                    | None => None
                    | Some (e, r1) => let (sg, r2) := opt_sign r1 in
                                      match digits1 r2 with
                                      | None => None
-                                     | Some (d2, r3) => Some (d ++ e ++ sg ++ d2, r3)
+                                     | Some (d2, r3) => Some (sg0 ++ d ++ e ++ sg ++ d2, r3)
                                      end
                    end
   end.
@@ -528,7 +531,7 @@ Definition lex_one (c : cfg) (ds : string) (s : string) : option (tok * string) 
   match lex_float s with
   | Some (t, r) => Some (TFloat t, r)
   | None =>
-  match lex_mixed s with
+  match lex_mixed c s with
   | Some (t, r) => Some (TFloat t, r)
   | None =>
   match lex_int s with
